@@ -1,7 +1,85 @@
+/-
+  CB.Driver.C20 — op lines of property C20 (integer square root).
+    c20.u.<form> <limbs> <hex>     Uint<limbs>      → `<hex>` | `none` | `panic`
+    c20.b.<form> <limbs> <hex>     BoxedUint        → `<limbs>:<hex>` | `none`
+    c20.{u,b}.rounds <limbs> <hex> → `<j> <log2_bits>`: least `j` with Newton iterate `x_j = ⌊√x⌋`
+                                     from the code's initial guess (the fixed count is log2_bits + 2)
+  Every sqrt line is printed as `L1 ;; L0` (L1 = model mirroring the code, L0 = `Nat.sqrt`).
+-/
 import CB.Driver.Util
+import CB.Model.Sqrt
 namespace CB
+open CB.Sqrt
 
-/-- operations of property C20 (op names start with `c20.`) -/
-def dispatchC20 : Dispatch := fun _ _ => none
+private def c20arg (n x : String) : Option (List Nat) :=
+  match n.toNat?, hexToNat? x with
+  | some n, some x => if n = 0 ∨ x ≥ B ^ n then none else some (toLimbs n x)
+  | _, _ => none
+
+private def fixedTok : Option (List Nat) → String
+  | none => "panic"
+  | some r => limbsHex r
+
+private def fixedCheckedTok : Option (List Nat × Bool) → String
+  | none => "panic"
+  | some (r, ok) => if ok then limbsHex r else "none"
+
+private def boxedTok : Option (List Nat) → String
+  | none => "nofuel"
+  | some r => limbsHexLen r
+
+private def boxedCheckedTok : Option (List Nat × Bool) → String
+  | none => "nofuel"
+  | some (r, ok) => if ok then limbsHexLen r else "none"
+
+/-- L0: what the property demands -/
+private def specSqrt (a : List Nat) (boxed : Bool) : String :=
+  let s := Nat.sqrt (val a)
+  if boxed then s!"{a.length}:{natToHex s}" else natToHex s
+
+private def specChecked (a : List Nat) (boxed : Bool) : String :=
+  let s := Nat.sqrt (val a)
+  if s * s = val a then (if boxed then s!"{a.length}:{natToHex s}" else natToHex s) else "none"
+
+/-- least `j ≤ fuel` with `x_j = ⌊√v⌋` (pure Newton iterates), counting from `j`. -/
+private def hitIndex (v s : Nat) : Nat → Nat → Nat → Nat
+  | 0, j, _ => j
+  | f + 1, j, x => if x = s then j else hitIndex v s f (j + 1) (newton v x)
+
+def dispatchC20 : Dispatch := fun op args =>
+  match args with
+  | [n, x] =>
+    match (op.splitOn "."), c20arg n x with
+    | ["c20", _, _], none => badArgs
+    | ["c20", "u", form], some a =>
+      let two (l1 l0 : String) := some (l1 ++ " ;; " ++ l0)
+      match form with
+      | "sqrt" | "trait_sqrt" => two (fixedTok (uintSqrt a)) (specSqrt a false)
+      | "sqrt_vartime" | "trait_sqrt_vartime" => two (fixedTok (uintSqrtVartime a)) (specSqrt a false)
+      | "wrapping_sqrt" => two (fixedTok (uintWrappingSqrt a)) (specSqrt a false)
+      | "wrapping_sqrt_vartime" => two (fixedTok (uintWrappingSqrtVartime a)) (specSqrt a false)
+      | "checked_sqrt" => two (fixedCheckedTok (uintCheckedSqrt a)) (specChecked a false)
+      | "checked_sqrt_vartime" => two (fixedCheckedTok (uintCheckedSqrtVartime a)) (specChecked a false)
+      | "rounds" =>
+        match sqrtInit a.length (val a) with
+        | none => some "panic"
+        | some x0 => some s!"{hitIndex (val a) (Nat.sqrt (val a)) 100000 0 x0} {log2Bits a.length}"
+      | _ => none
+    | ["c20", "b", form], some a =>
+      let two (l1 l0 : String) := some (l1 ++ " ;; " ++ l0)
+      match form with
+      | "sqrt" | "trait_sqrt" => two (limbsHexLen (boxedSqrt a)) (specSqrt a true)
+      | "sqrt_vartime" | "trait_sqrt_vartime" => two (boxedTok (boxedSqrtVartime a)) (specSqrt a true)
+      | "wrapping_sqrt" => two (limbsHexLen (boxedWrappingSqrt a)) (specSqrt a true)
+      | "wrapping_sqrt_vartime" => two (boxedTok (boxedWrappingSqrtVartime a)) (specSqrt a true)
+      | "checked_sqrt" =>
+        let r := boxedCheckedSqrt a
+        two (if r.2 then limbsHexLen r.1 else "none") (specChecked a true)
+      | "checked_sqrt_vartime" => two (boxedCheckedTok (boxedCheckedSqrtVartime a)) (specChecked a true)
+      | "rounds" =>
+        some s!"{hitIndex (val a) (Nat.sqrt (val a)) 100000 0 (bsqrtInit a.length (val a))} {log2Bits a.length}"
+      | _ => none
+    | _, _ => none
+  | _ => if op.startsWith "c20." then badArgs else none
 
 end CB
